@@ -20,8 +20,11 @@ def main():
     bad = 0
     if hasattr(P, "replay"):
         return P.replay(r)
-    mo = coqrun.run_model(P.COQ_IMPORTS, P.COQ_FN, [P.model_input(c) if hasattr(P, "model_input") else c["tree"]])[0]
-    print("model:", json.dumps(mo)[:2000])
+    per_build = hasattr(P, "model_input_for")      # the model input depends on what the build did (flush oracle)
+    mo = None
+    if not per_build:
+        mo = coqrun.run_model(P.COQ_IMPORTS, P.COQ_FN, [P.model_input(c) if hasattr(P, "model_input") else c["tree"]])[0]
+        print("model:", json.dumps(mo)[:2000])
     with B.builds(tuple(getattr(P, "BUILDS", ("pure", "compiled")))) as bd:
         for k in ("pure", "compiled"):
             if not bd.get(k):
@@ -34,6 +37,11 @@ def main():
             for f in P.monitors(c, io, k):
                 bad += 1
                 print("  MONITOR %s/%s: %s" % (f["clause"], f["site"], f["msg"]))
+            if isinstance(io, dict) and "Hang" in io:
+                continue
+            if per_build:
+                mo = coqrun.run_model(P.COQ_IMPORTS, P.COQ_FN, [P.model_input_for(c, io, k)])[0]
+                print("model[%s]:" % k, json.dumps(mo)[:2000])
             cmp_fn = getattr(P, "compare", None) or (lambda c, m, i: None if m == i else "outputs differ")
             d = cmp_fn(c, mo, io)
             if d:
